@@ -202,6 +202,8 @@ type world struct {
 	keepObs   bool
 	canonEmit bool // twin comparison over canonicalised packets (C16)
 	deadlockProp string // property a lock cycle is reported under (default C20)
+	panicProp    string // property a panic is reported under (default C03)
+	lin          []linHistory // histories to be checked for linearizability after the bubble
 	maxLoop   int64 // largest number of loop iterations seen in one scheduling step
 }
 
@@ -478,7 +480,11 @@ func (w *world) run(cond func() bool, deadline time.Duration) stopReason {
 			return stopAbort
 		}
 		if s.panicked {
-			w.violate("C03", "panic", "%s", s.panicMsg)
+			pp := "C03"
+			if w.panicProp != "" {
+				pp = w.panicProp
+			}
+			w.violate(pp, "panic", "%s", s.panicMsg)
 			return stopViolation
 		}
 		if n := atomic.SwapInt64(&vsimLoopN, 0); n > w.maxLoop {
@@ -1000,6 +1006,21 @@ func runOne(t *testing.T, sc scenario, o runOpts) (res *runResult) {
 			}
 		})
 	}()
+	if w != nil && w.viol == nil && w.aborted == "" {
+		for _, h := range w.lin {
+			switch v, d := checkLinearizable(h); v {
+			case "illegal":
+				w.viol = &violation{Prop: "C20", Class: "not-linearizable", Msg: fmt.Sprintf("%s: the history of successful writes and reads is not linearizable as a FIFO queue: %s", h.name, d)}
+			case "unknown":
+				w.probe("linearizability-check-timed-out")
+			default:
+				w.probe("linearizable-history")
+			}
+			if w.viol != nil {
+				break
+			}
+		}
+	}
 	if w != nil {
 		res.Violation = w.viol
 		res.Aborted = w.aborted
